@@ -157,7 +157,7 @@ pub fn gen(tier: Tier, rng: &mut Rng64, out: &mut Out) {
             for n in 0..=4usize { run("C08.cvals", &[text.clone(), n.to_string()], out); }
         }
     }
-    for _ in 0..(if thorough { 3000 } else { 300 }) {
+    for _ in 0..(if thorough { 10000 } else { 300 }) {
         let n = 5 + rng.below(if thorough { 12 } else { 8 }) as usize;
         // at most 10 free positions
         let free = rng.below(11.min(n as u64 + 1)) as usize;
@@ -181,19 +181,19 @@ pub fn gen(tier: Tier, rng: &mut Rng64, out: &mut Out) {
         for _ in 0..1500 { let b = fmt_bdd(&bdd_of_tt(4, &tt_from_index(4, rng.below(65536)))); all_kinds(&b, rng, out); }
     }
     // --- random functions over 5..=8 variables (shared sub-diagrams, skipped levels)
-    for _ in 0..(if thorough { 20000 } else { 1500 }) {
+    for _ in 0..(if thorough { 60000 } else { 1500 }) {
         let n = 5 + rng.below(4) as usize;
         let b = fmt_bdd(&random_bdd(rng, n));
         all_kinds(&b, rng, out);
     }
     // --- few-node diagrams over 10..=40 variables with level gaps, <= 2^12 satisfying valuations
-    for _ in 0..(if thorough { 1500 } else { 120 }) {
+    for _ in 0..(if thorough { 5000 } else { 120 }) {
         let b = fmt_triples(&gap_bdd(rng));
         all_kinds(&b, rng, out);
     }
     // --- valid but non-canonical diagrams (duplicated nodes, garbage, redundant test, renumbering);
     //     a redundant test makes the path iterator panic by design ("The BDD is not canonical.")
-    for _ in 0..(if thorough { 4000 } else { 400 }) {
+    for _ in 0..(if thorough { 10000 } else { 400 }) {
         let n = 2 + rng.below(5) as usize;
         let b0 = random_bdd(rng, n);
         let b = fmt_bdd(&noncanon_variant(rng, &b0));
